@@ -73,3 +73,17 @@ def with_global(docs, key="detection", sub="condition"):
     for d in docs:
         del d[key][sub]
     return [{"action": "global", key: {sub: vals[0]}}] + docs
+
+
+def with_global_top(docs, key):
+    """The same collection with what all documents have in common under the top-level key moved into a global action
+    document in front."""
+    import copy
+
+    docs = copy.deepcopy(docs)
+    vals = [d.get(key) for d in docs]
+    if len(docs) < 2 or any(v is None or v != vals[0] for v in vals):
+        return docs
+    for d in docs:
+        del d[key]
+    return [{"action": "global", key: vals[0]}] + docs
